@@ -68,8 +68,13 @@ func (e *engineA) wireTimeoutNow(n *Node) {
 		return
 	}
 	defer p.close()
-	resp, err := p.call(raft.VerifMsg{Kind: "timeoutNow", Term: info.Term, Src: src}, nil, 2*e.hb())
-	rec := &ev.Rec{K: "wire-timeoutnow", Nid: n.nid, Cid: e.cl.cid, Term: info.Term, Res: resp.Result}
+	term := info.Term
+	if term > 1 && e.cl.rnd(3) == 0 {
+		// a request that was on its way for a long time: from a term that is over
+		term -= uint64(1 + e.cl.rnd(int(term-1)))
+	}
+	resp, err := p.call(raft.VerifMsg{Kind: "timeoutNow", Term: term, Src: src}, nil, 2*e.hb())
+	rec := &ev.Rec{K: "wire-timeoutnow", Nid: n.nid, Cid: e.cl.cid, Term: term, Res: resp.Result}
 	if err != nil {
 		rec.Err = err.Error()
 	}
